@@ -563,6 +563,13 @@ func (l *Ledger) ConfirmBlock(block *pb.InternalBlock, isRoot bool) ConfirmStatu
 	blkTimer := timer.NewXTimer()
 	l.xlog.Info("start to confirm block", "blockid", utils.F(block.Blockid), "txCount", len(block.Transactions))
 	var confirmStatus ConfirmStatus
+	defer func() {
+		if !confirmStatus.Succ {
+			// block headers cached or modified in memory on behalf of a refused block (its own header,
+			// next link of the parent, in-trunk flags flipped by handleFork) must not outlive it
+			l.blkHeaderCache = cache.NewLRUCache(BlockCacheSize)
+		}
+	}()
 	if !isRoot {
 		// a stored block must not be confirmed again: it would be rewritten as a branch block
 		// (in-trunk flag cleared, height index and branch info disturbed) while still on the trunk
@@ -764,7 +771,9 @@ func (l *Ledger) ConfirmBlock(block *pb.InternalBlock, isRoot bool) ConfirmStatu
 			confirmStatus.Error = lErr
 		}
 	}
-	l.blockCache.Add(string(block.Blockid), block)
+	if confirmStatus.Succ {
+		l.blockCache.Add(string(block.Blockid), block)
+	}
 	l.xlog.Debug("confirm block cost", "blkTimer", blkTimer.Print())
 	return confirmStatus
 }
